@@ -744,7 +744,8 @@ class Rectangle(Shape):
         # The comparison is done in the rectangle's own frame (the frame of
         # `_get_vertex_positions`): the point is taken relative to the
         # center and the rotation of the rectangle is undone.
-        rel_point = Shape.calc_rotated_pos(point - self.pos, -self.rotation)
+        rel_point = Shape.calc_rotated_pos(point - self.pos,
+                                           -1.0 * self.rotation)
         lower = self._lower_coord - self.pos
         upper = self._upper_coord - self.pos
 
